@@ -674,6 +674,7 @@ func baseHooks() map[string]hookFn {
 	h["os.Getenv"] = func(i *interpreter, fr *frame, fn *ssa.Function, args []value) value { return "" }
 	h["os.LookupEnv"] = func(i *interpreter, fr *frame, fn *ssa.Function, args []value) value { return tuple{"", false} }
 	addSyncHooks(h)
+	addSortHooks(h)
 	addNetModel(h)
 	return h
 }
@@ -733,4 +734,40 @@ func (i *interpreter) atomicPointerOp(method string, args []value) (value, bool)
 		return false, true
 	}
 	return nil, false
+}
+
+// sort.Slice / sort.SliceStable (the library goes through reflect): a stable insertion sort that
+// calls the target's less function and swaps the elements in place.
+func addSortHooks(h map[string]hookFn) {
+	sortSlice := func(i *interpreter, fr *frame, fn *ssa.Function, args []value) value {
+		itf, ok := args[0].(iface)
+		if !ok {
+			panic(unsupported{"sort.Slice: argument is not an interface value"})
+		}
+		xs, ok := itf.v.([]value)
+		if !ok {
+			panic(targetPanic{iface{t: types.Typ[types.String], v: "sort.Slice: argument is not a slice"}})
+		}
+		less := args[1]
+		for a := 1; a < len(xs); a++ {
+			for b := a; b > 0; b-- {
+				if !i.truth(call(i, fr, 0, less, []value{b, b - 1})) {
+					break
+				}
+				xs[b], xs[b-1] = xs[b-1], xs[b]
+			}
+		}
+		return nil
+	}
+	h["sort.Slice"] = sortSlice
+	h["sort.SliceStable"] = sortSlice
+	h["sort.SliceIsSorted"] = func(i *interpreter, fr *frame, fn *ssa.Function, args []value) value {
+		xs, _ := args[0].(iface).v.([]value)
+		for a := 1; a < len(xs); a++ {
+			if i.truth(call(i, fr, 0, args[1], []value{a, a - 1})) {
+				return false
+			}
+		}
+		return true
+	}
 }
